@@ -82,6 +82,7 @@ EXPORT errno_t _strremovews_s_chk(char *dest, rsize_t dmax,
 {
     char *orig_dest;
     char *orig_end;
+    char *start;
     rsize_t orig_dmax;
 
     CHK_DEST_NULL("strremovews_s")
@@ -102,6 +103,7 @@ EXPORT errno_t _strremovews_s_chk(char *dest, rsize_t dmax,
     }
 
     orig_dest = dest;
+    start = dest;
     orig_dmax = dmax;
 
     /*
@@ -146,7 +148,7 @@ EXPORT errno_t _strremovews_s_chk(char *dest, rsize_t dmax,
      * strip trailing whitespace
      */
     dest = orig_end;
-    while ((*dest == ' ') || (*dest == '\t')) {
+    while (dest >= start && ((*dest == ' ') || (*dest == '\t'))) {
         *dest = '\0';
         dest--;
     }
